@@ -252,6 +252,9 @@ pub enum Outcome {
     Next(Box<State>),
     /// both back ends refused in the same way (Err / panic); no successor
     BothRefused,
+    /// both back ends returned Err and the observable graph is unchanged; the state is handed back so that the search
+    /// continues from it: with equal private state its key equals the parent's, otherwise it is a new state
+    RefusedUnchanged(Box<State>),
     Violation(String, String),
 }
 
@@ -469,6 +472,24 @@ pub fn step(s: &State, op: &Op) -> Outcome {
         if expect_ok {
             return Outcome::Violation(format!("{}|valid-operation-refused|{}", opname, kind(&rv)), format!("both back ends refused a valid operation: {:?}", rv));
         }
+        // an operation refused with Err must leave both graphs exactly as they were (a panic may not: no claim)
+        if kind(&rv) == "err" {
+            let want = observe_model(&s.m);
+            for (name, got) in [("vec", guarded(|| observe(&n.v, &n.lv))), ("hash", guarded(|| observe(&n.h, &n.lh)))] {
+                match got {
+                    Err(p) => return Outcome::Violation(format!("{}|{}|refused-operation-changed-state|observe-panic", opname, name), p),
+                    Ok(Err(e)) => return Outcome::Violation(format!("{}|{}|refused-operation-changed-state|inconsistent", opname, name), e),
+                    Ok(Ok(o)) => {
+                        if o != want {
+                            return Outcome::Violation(format!("{}|{}|refused-operation-changed-state", opname, name), format!("observed {}\n expected {}", o, want));
+                        }
+                    }
+                }
+            }
+        }
+        if kind(&rv) == "err" {
+            return Outcome::RefusedUnchanged(Box::new(n));
+        }
         return Outcome::BothRefused;
     }
     if !expect_ok {
@@ -499,6 +520,22 @@ pub fn step(s: &State, op: &Op) -> Outcome {
     fh.sort();
     if fv != fh {
         return Outcome::Violation(format!("{}|scalar-factors-differ", opname), format!("vec {:?} hash {:?}", fv, fh));
+    }
+    // the value of every factor is the product of everything multiplied into it: i^count (the model counts)
+    for k in 0..2u8 {
+        let e = test_expr(k);
+        let want = n.m.factors.get(&format!("{:?}", e)).map(|&c| {
+            let mut s = Scalar4::new([1, 0, 0, 0], 0);
+            for _ in 0..c {
+                s *= Scalar4::new([0, 0, 1, 0], 0);
+            }
+            s
+        });
+        for (name, got) in [("vec", n.v.get_scalar_factor(&e)), ("hash", n.h.get_scalar_factor(&e))] {
+            if got != want {
+                return Outcome::Violation(format!("{}|{}|scalar-factor-value", opname, name), format!("factor of {:?} is {:?}, the product of the factors multiplied in is {:?}", e, got, want));
+            }
+        }
     }
     Outcome::Next(Box::new(n))
 }
@@ -730,6 +767,11 @@ pub fn explore(rep: &mut Report, max_live: usize, max_id: usize, depth_cap: usiz
                             succ.push((*n, p2, k));
                         }
                         Outcome::BothRefused => st.inc("refused_in_both"),
+                        Outcome::RefusedUnchanged(n) => {
+                            st.inc("refused_in_both");
+                            let k = state_key(&n);
+                            succ.push((*n, p2, k));
+                        }
                         Outcome::Violation(sig, detail) => st.violation(Violation { sig, detail, witness: json!({"kind": "history", "ops": op_json(&p2)}) }),
                     }
                 }
@@ -765,7 +807,7 @@ pub fn explore(rep: &mut Report, max_live: usize, max_id: usize, depth_cap: usiz
                                 }
                             }
                         }
-                        Outcome::BothRefused => st.inc("refused_in_both"),
+                        Outcome::BothRefused | Outcome::RefusedUnchanged(_) => st.inc("refused_in_both"),
                         Outcome::Violation(sig, detail) => {
                             let mut p2 = path.clone();
                             p2.push(d1.clone());
@@ -840,6 +882,10 @@ pub fn replay(w: &Value) -> Option<Violation> {
             Outcome::BothRefused => {
                 println!("  refused by both back ends");
                 return None;
+            }
+            Outcome::RefusedUnchanged(n) => {
+                println!("  refused with Err by both back ends, observable graph unchanged");
+                s = *n;
             }
             Outcome::Violation(sig, detail) => return Some(Violation { sig, detail, witness: w.clone() }),
         }
